@@ -9,5 +9,5 @@ trap 'git -C /repo worktree remove --force "$wt" >/dev/null 2>&1; rm -rf "$wt" "
 git -C "$wt" apply /verif/seeded_equiv/$name/patch.diff || exit 2
 for id in "$@"; do
   echo "--- $name $id"
-  VERIF_REPO="$wt" VERIF_DIR="$ev" ${VERIF_ENV:-} timeout 900 /verif/bin/verifcheck "$id" quick 2>&1 | grep -E "${G:-  FAIL|^panic:|^goroutine }" | cut -c1-${W:-330} | head -${N:-4}
+  VERIF_REPO="$wt" VERIF_DIR="$ev" ${VERIF_ENV:-} timeout 900 ${VERIF_BIN:-/verif/bin/verifcheck} "$id" quick 2>&1 | grep -E "${G:-  FAIL|^panic:|^goroutine }" | cut -c1-${W:-330} | head -${N:-4}
 done
